@@ -1,4 +1,4 @@
-import Dashu.Model.NT.Modular
+import Dashu.Model.NT.Log
 /-
   C12 — `EstimatedLog2::log2_bounds` (std build): bit-exact executable replica of
   `base/src/math/log.rs` (`impl_log2_bounds_for_uint`, `next_up`, `next_down`),
@@ -77,6 +77,52 @@ def log2BoundsRat (W : Nat) (num : Int) (den : Nat) : Float32 × Float32 :=
     let (nlb, nub) := log2BoundsNat W num.natAbs
     let (dlb, dub) := log2BoundsNat W den
     (nextDown (nlb - dub), nextUp (nub - dlb))
+
+-- ---------------------------------------------------------------- no_std build (table estimator)
+
+/-- `impl EstimatedLog2 for u8` (feature std off) -/
+def log2BoundsU8NoStd (x : Nat) : Float32 × Float32 :=
+  if x = 0 then (negInf, negInf)
+  else if x = 1 then (0, 0)
+  else if isPow2 x then (let l := Float32.ofNat (bitLen x - 1); (l, l))
+  else if x = 3 then (Float32.ofBits 0x3fcae00d, Float32.ofBits 0x3fcae00e)     -- 1.5849625, 1.5849626
+  else if x < 16 then
+    let pow := x ^ 4
+    let lb := Float32.ofNat (log2Fp8 pow) / 256
+    let ub := Float32.ofNat (ceilLog2Fp8 pow) / 256
+    (lb / 4, ub / 4)
+  else
+    let pow := x ^ 2
+    let lb := Float32.ofNat (log2Fp8 pow) / 256
+    let ub := Float32.ofNat (ceilLog2Fp8 pow) / 256
+    (lb / 2, ub / 2)
+
+/-- `impl EstimatedLog2 for u16` and `impl_log2_bounds_for_uint!(u32 u64 u128 usize)` (feature std off) -/
+def log2BoundsPrimNoStd (x : Nat) : Float32 × Float32 :=
+  if x ≤ 0xff then log2BoundsU8NoStd x
+  else if isPow2 x then (let l := Float32.ofNat (bitLen x - 1); (l, l))
+  else
+    let bits := bitLen x
+    if bits ≤ 16 then
+      (Float32.ofNat (log2Fp8 x) / 256, Float32.ofNat (ceilLog2Fp8 x) / 256)
+    else
+      let shift := bits - 16
+      let hi := x >>> shift
+      let lb := Float32.ofNat (log2Fp8 hi) / 256
+      let ub := if hi = 2 ^ 15 then 15 * 256 + 1 else ceilLog2Fp8 hi
+      let ub := Float32.ofNat ub / 256
+      (nextDown (lb + Float32.ofNat shift), nextUp (ub + Float32.ofNat shift))
+
+/-- `log2_bounds_large` / `TypedReprRef::log2_bounds` on top of the no_std primitive estimator -/
+def log2BoundsNatNoStd (W : Nat) (x : Nat) : Float32 × Float32 :=
+  if x < 2 ^ (2 * W) then log2BoundsPrimNoStd x
+  else
+    let len := wordLen W x
+    let hi := x >>> (W * (len - 2))
+    let remBits := Float32.ofNat ((len - 2) * W)
+    let (hlb, hub) := log2BoundsPrimNoStd hi
+    let adjust : Float32 := Float32.ofBits 0x34800000
+    ((hlb + remBits) * ((1 : Float32) - adjust), (hub + remBits) * ((1 : Float32) + adjust))
 
 -- ---------------------------------------------------------------- exact enclosure test
 
